@@ -11,7 +11,7 @@ RULE = ("exact metamorphic laws of `to` over commensurable non-offset unit expre
         "x U1 to U3 to U2 = x U1 to U2; homogeneity (k*x) U1 to U2 = k*(x U1 to U2); prefix: 1 pU to U = 10^p for every accepted prefix "
         "spelling of every unit (exhaustive over the vocabulary); power: 1 U1^n to U2^n = (1 U1 to U2)^n for n in -3..3; product/quotient "
         "of up to four units converts by the product/quotient of the factors; and x U1 to U2 = x*s(U1)/s(U2) with s measured by "
-        "`1 U to <base units>`. Every documented unit occurs as source and as target inside its dimension class. "
+        "`1 U to <base units>`; pairs: every ordered pair of units as quotient and product converted to the base-unit spelling of its dimension. Every documented unit occurs as source and as target inside its dimension class. "
         "non-trivial = distinct conversion whose source or target is prefixed, powered or compound")
 
 def one_value(rep):
@@ -56,6 +56,33 @@ def shard(p):
             want2 = x / want * x if want else None
             checks.append(("absolute", ["%s %s to %s" % (xs, other["word"], e["word"])],
                            (lambda vs, x=x, e=e, other=other: None if vs[0][0] == x * V.scale[other["key"]] * F(10) ** other["prefix"] / (V.scale[e["key"]] * F(10) ** e["prefix"]) else "is %s" % (vs[0][0],))))
+        # pairwise interaction sweep: every ordered pair of units (one bare word per unit, plus kg) as quotient and as product,
+        # converted to the base-unit spelling of its dimension (thorough: also to a random other spelling and with prefixes).
+        # A special case keyed on ONE unit in the source and ONE kind of target (N/g to m/s^2, seed C03-c) is a 2-way
+        # interaction: random compounds of up to four of ~90 units almost never draw it, the matrix always does.
+        per_key = {}
+        for e in V.entries:
+            if e["bare"] and (e["key"] not in per_key or len(e["word"]) < len(per_key[e["key"]]["word"])):
+                per_key[e["key"]] = e
+        words = sorted(per_key.values(), key=lambda e: e["word"]) + [e for e in V.entries if e["word"] == "kg"]
+        pairs = [(a, b) for a in words for b in words if a["key"] != b["key"]]
+        for (a, b) in pairs[p["shard"] % p["nshards"]::p["nshards"]]:
+            for pw in (-1, 1):
+                fs = [(a, 1), (b, pw)]
+                sv, dims = V.factors_si(fs)
+                tgt = G.base_expr(dims)
+                if tgt is None:
+                    continue
+                src = "%s%s%s" % (a["word"], "/" if pw < 0 else "*", b["word"])
+                checks.append(("pairs", ["1 %s to %s" % (src, tgt)], (lambda vs, want=sv: None if vs[0][0] == want else "is %s, the scales of the two units give %s" % (vs[0][0], want))))
+                if p.get("thorough"):
+                    f2 = V.factors_for_dims(rng, dims)
+                    if f2:
+                        s2, _ = V.factors_si(f2)
+                        ea = rng.choice(V.by_key[a["key"]])
+                        fs2 = [(ea, 1), (b, pw)]
+                        sv2, _ = V.factors_si(fs2)
+                        checks.append(("pairs", ["1 %s to %s" % (G.text(fs2), G.text(f2, rng))], (lambda vs, want=sv2 / s2: None if vs[0][0] == want else "is %s, the scales give %s" % (vs[0][0], want))))
         for _ in range(p["n"]):
             f1 = V.rand_factors(rng, nmax=rng.choice([1, 1, 2, 3, 4]))
             s1, dims = V.factors_si(f1)
@@ -128,7 +155,7 @@ def shard(p):
             acc.evaluations += 1
             acc.count("law_" + law)
             if law != "absolute" or any(c in qs[0] for c in "*/^") or not any(e["bare"] and (" " + e["word"] + " ") in (" " + qs[0] + " ") for e in V.entries[:0]):
-                if any(c in qs[0] for c in "*/^") or law in ("prefix", "power", "product"):
+                if any(c in qs[0] for c in "*/^") or law in ("prefix", "power", "product", "pairs"):
                     acc.nontriv(qs[0])
             vals, bad = [], None
             for q, r in zip(qs, rs):
@@ -154,7 +181,7 @@ def run(tier, seed):
     t0 = time.time()
     bins = {k: build.build(k)["vdriver"] for k in ("dbg", "rel")}
     n = 36000 if tier == "quick" else 500000
-    payloads = [{"seed": seed, "shard": i, "nshards": NCPU, "n": n // NCPU, "bin": bins["dbg"], "kind": "dbg"} for i in range(NCPU)]
+    payloads = [{"seed": seed, "shard": i, "nshards": NCPU, "n": n // NCPU, "bin": bins["dbg"], "kind": "dbg", "thorough": tier == "thorough"} for i in range(NCPU)]
     if tier == "thorough":
         payloads += [{"seed": seed, "shard": 100 + i, "nshards": NCPU, "n": n // NCPU // 5, "bin": bins["rel"], "kind": "rel"} for i in range(NCPU)]
     acc = run_shards(shard, payloads)
